@@ -568,6 +568,119 @@ def rule_determinism(ctx, repo):
     ctx.count("determinism_sites", n_sites)
 
 
+def tv_sensitivity(ctx, models, gens, per_model=12, seed=0):
+    """thorough: mutate generated functions in memory; every provably non-equivalent mutant must be reported."""
+    import random
+    from engine import tvmut
+    rnd = random.Random(seed)
+    total = caught = skipped = 0
+    missed = []
+    kinds = {}
+    for name, m in models.items():
+        gen = gens[name]
+        try:
+            mt = tv.ModelTV(name, m, gen)
+        except dsl.DSLError:
+            continue
+        fl = tv.flags_of(m, mt.st)
+        sx, sy, allv = mt.var_order()
+        funcs = [f for f in gen.funcs.values() if f.ret is not None]
+        rnd.shuffle(funcs)
+        for gf in funcs[:per_model]:
+            # declared counterpart (list of expressions) and stored args for this function
+            try:
+                if gf.name == "f_update":
+                    decl, args = [mt.eq(v) for v in sx], gen.tables.get("f_args")
+                elif gf.name == "g_update":
+                    decl, args = [mt.eq(v) for v in sy], gen.tables.get("g_args")
+                elif gf.name.endswith("_svc"):
+                    sn = gf.name[:-4]
+                    decl, args = [mt.decl(m.services[sn].v_str)], gen.tables["s_args"].get(sn)
+                elif gf.name.endswith("_ia"):
+                    vn = gf.name[:-3]
+                    decl, args = [mt.decl(m.cache.all_vars[vn].v_str)], gen.tables["ia_args"].get(vn)
+                else:
+                    continue
+            except Exception:
+                continue
+            for kind, mf in tvmut.mutants_of(gf, rnd, k=2):
+                try:
+                    els = mf.elements()
+                    if list(mf.params) != list(args):
+                        verdict = "violation"      # binding rule
+                        nonequiv = True
+                    else:
+                        got = [mt.gen_expr(e, mf.params) for e in els]
+                        if len(got) != len(decl):
+                            continue
+                        # is the mutant provably different from the original generated function?
+                        orig = [mt.gen_expr(e, gf.params) for e in gf.elements()]
+                        nonequiv = any(dsl.numeric_nonzero(sp.expand(a - b), flags=fl) is True for a, b in zip(orig, got)
+                                       if isinstance(a, sp.Basic) and isinstance(b, sp.Basic) and not dsl.is_bool(a) and not dsl.is_bool(b))
+                        if not nonequiv:
+                            skipped += 1
+                            continue
+                        verdict = "ok"
+                        for a, b in zip(decl, got):
+                            v, _ = dsl.equal(a, b, flags=fl, deep=False)
+                            if v == "differ":
+                                verdict = "violation"
+                                break
+                except dsl.DSLError:
+                    verdict = "violation"        # free name / unknown construct is reported by the body rule
+                    nonequiv = True
+                except Exception:
+                    skipped += 1
+                    continue
+                total += 1
+                kinds[kind] = kinds.get(kind, 0) + 1
+                if verdict == "violation":
+                    caught += 1
+                else:
+                    missed.append("%s.%s/%s" % (name, gf.name, kind))
+    ctx.extra["tv_sensitivity"] = dict(mutants=total, caught=caught, skipped_equivalent_or_unparsed=skipped, kinds=kinds, missed=missed[:20])
+    print("   tv sensitivity: %d/%d non-equivalent mutants of generated functions reported (%d skipped)" % (caught, total, skipped))
+    return missed
+
+
+def regeneration(ctx, models, gens):
+    """thorough: regenerate all code in a fresh interpreter with a different hash seed; the second generation must validate
+    against the declarations as well (functional identity), and textual identity is recorded."""
+    import os
+    import shutil
+    import subprocess
+    import sys
+    import tempfile
+    from engine import pycode
+    from engine.report import REPO, VERIF, Ctx
+    d = tempfile.mkdtemp(prefix="andes_verif_regen_")
+    try:
+        code = ("import sys; sys.path.insert(0, %r); import logging; logging.disable(logging.CRITICAL); "
+                "from engine import elab; import shutil; d, err = elab.generate_pycode(); "
+                "import os; [shutil.move(os.path.join(d, f), os.path.join(%r, f)) for f in os.listdir(d)]; shutil.rmtree(d, ignore_errors=True); "
+                "print('ERRORS', err)") % (VERIF, d)
+        env = dict(os.environ, PYTHONHASHSEED="4242", VERIF_REPO=REPO, PYTHONDONTWRITEBYTECODE="1")
+        pr = subprocess.run([sys.executable, "-W", "ignore", "-c", code], env=env, capture_output=True, text=True, timeout=1800)
+        if "ERRORS {}" not in pr.stdout:
+            raise AnalysisError("second generator run failed: %s" % (pr.stdout + pr.stderr)[-300:])
+        gens2 = pycode.load_dir(d, list(models))
+        same = sum(1 for n in models if gens2[n].text == gens[n].text)
+        diff = [n for n in models if gens2[n].text != gens[n].text]
+        sub = Ctx("C02", tier="quick", level="translation_validation")
+        run_models(sub, models, gens2)
+        bad = [r for r in sub.results if r["verdict"] == "violation"]
+        ctx.extra["regeneration"] = dict(files=len(models), textually_identical=same, different=diff[:10], second_generation_violations=len(bad),
+                                         second_generation_instances=len(sub.results))
+        for r in bad[:10]:
+            ctx.violation("C02.regen", r["construct"], "second generation (PYTHONHASHSEED=4242) disagrees with the declarations: " + r["detail"], r["where"])
+        ctx.check(not bad, "C02.regen", "all models", "%d/%d files textually identical across two generations with different hash seeds; the second "
+                  "generation validates against the declarations (%d instances)" % (same, len(models), len(sub.results)),
+                  "second generation is not functionally identical")
+        print("   regeneration: %d/%d files textually identical; second generation: %d violations" % (same, len(models), len(bad)))
+    finally:
+        shutil.rmtree(d, ignore_errors=True)
+
+
 def run(ctx):
     ctx.rule("C02.body", "i-th element of every generated function == own parse of the declared string of the i-th "
              "variable/service of the collection the runtime enumerates (SubsService substituted), by normal form", 1500)
@@ -587,6 +700,12 @@ def run(ctx):
     models, gens, cached = tv.load_all()
     ctx.extra["generator_cache_hit"] = cached
     run_models(ctx, models, gens)
+    if ctx.tier == "thorough":
+        ctx.rule("C02.regen", "regenerating from unchanged models under a different hash seed yields functionally identical code", 1)
+        regeneration(ctx, models, gens)
+        missed = tv_sensitivity(ctx, models, gens)
+        if missed:
+            raise AnalysisError("translation validator is blind to %d mutants of generated code, e.g. %s" % (len(missed), missed[:3]))
     rule_consumers(ctx, repo)
     rule_writer_reader(ctx, repo)
     rule_hash(ctx, repo)
